@@ -751,15 +751,22 @@ func (s *State) applyFunction(name string, fn object.Object, args []object.Objec
 		}
 		s.cacheGen = gen
 	}
-	if v, output, ok := s.cache.Get(function.CacheKey, args); ok {
-		log.Debugf("Cache hit for %s %v -> %#v", function.CacheKey, args, v)
-		if len(output) > 0 {
-			_, err := s.Out.Write(output)
-			if err != nil {
-				log.Warnf("output: %v", err)
+	// A recursive call made from a frame that holds a local function (itself or, through recursion, its callers): the
+	// callee's scope chain runs through these frames, whose local functions shadow the top level ones a remembered
+	// result was computed with (g=func(){1}; func f(n){if n==0{return g()}; g:=func(){2}; f(n-1)}: f(0) is 1 from the
+	// top level and 2 from f(1)). Neither looked up nor stored: a miss.
+	skipCache := s.env.LocalFunc() && s.env.SameFunction(function)
+	if !skipCache {
+		if v, output, ok := s.cache.Get(function.CacheKey, args); ok {
+			log.Debugf("Cache hit for %s %v -> %#v", function.CacheKey, args, v)
+			if len(output) > 0 {
+				_, err := s.Out.Write(output)
+				if err != nil {
+					log.Warnf("output: %v", err)
+				}
 			}
+			return v
 		}
-		return v
 	}
 	nenv, newBody, oerr := s.extendFunctionEnv(s.env, name, function, args)
 	if oerr != nil {
@@ -787,7 +794,7 @@ func (s *State) applyFunction(name string, fn object.Object, args []object.Objec
 			log.Warnf("output: %v", err)
 		}
 	}
-	if after != before {
+	if skipCache || after != before {
 		log.Debugf("Cache miss for %s %v, %d get misses", function.CacheKey, args, after-before)
 		// The callee depends on outer state (or called a non cacheable extension): so does its caller.
 		s.env.TriggerNoCache()
